@@ -260,7 +260,6 @@ type Handle struct {
 	nCursors int
 	lazySnap bool
 	runTag   string
-	noLog    bool
 	// yieldAfter: also yield when a storage call is about to return (a real
 	// engine can be preempted after the read or write took effect, too)
 	yieldAfter bool
